@@ -19,11 +19,15 @@ import (
 type simReaderAt struct {
 	b     []byte
 	yield func(string)
+	gate  func(off int64) // called before a read is served (stalled reads)
 }
 
 func (r *simReaderAt) ReadAt(p []byte, off int64) (int, error) {
 	if r.yield != nil {
 		r.yield("zip.ReadAt")
+	}
+	if r.gate != nil {
+		r.gate(off)
 	}
 	if off >= int64(len(r.b)) {
 		return 0, io.EOF
@@ -42,6 +46,20 @@ func genArchiveTree(rt *rapid.T) Tree {
 		d := []string{"s", "s/t", "u"}[i%3]
 		sz := []int{0, 1, 10, 300, 5000}[(i*7)%5]
 		t[fmt.Sprintf("%s/small%03d", d, i)] = &Entry{Kind: KFile, Data: Bytes(uint64(i)*31+5, sz)}
+	}
+	return t.Normalize()
+}
+
+// genWideArchiveTree: one larger entry that sorts first, then more than a thousand tiny ones.
+func genWideArchiveTree(rt *rapid.T) Tree {
+	t := Tree{"0slow.bin": &Entry{Kind: KFile, Data: Bytes(rapid.Uint64().Draw(rt, "slowseed"), rapid.SampledFrom([]int{40 * KiB, 200 * KiB}).Draw(rt, "slowsize"))}}
+	n := rapid.SampledFrom([]int{1030, 1100, 1500, 2100}).Draw(rt, "nwide")
+	for i := 0; i < n; i++ {
+		var d []byte
+		if i%16 == 3 {
+			d = []byte{byte(i), byte(i >> 8), 7}
+		}
+		t[fmt.Sprintf("w%d/e%04d", i%3, i)] = &Entry{Kind: KFile, Data: d}
 	}
 	return t.Normalize()
 }
@@ -86,14 +104,21 @@ func TestC19(t *testing.T) {
 	Ev.Component("archive ReaderAt, consumer callbacks, worker schedule, process crash (snapshot of directory + resume file at a quiescent point, in-progress files and resume file torn), restart", "simulated")
 	Ev.Assume("crash snapshots are taken when no I/O is in flight (scheduler quiescence); the resume file may additionally be empty or truncated because os.WriteFile is truncate-then-write")
 	Prop(t, "C19", func(rt *rapid.T) {
-		tree := genArchiveTree(rt)
+		wide := rapid.IntRange(0, 14).Draw(rt, "wide") == 0
+		var tree Tree
+		if wide {
+			tree = genWideArchiveTree(rt)
+			Ev.Probe("archive_with_more_than_1000_entries_behind_a_stalled_one")
+		} else {
+			tree = genArchiveTree(rt)
+		}
 		dir, cleanup := RunDir()
 		defer cleanup()
 		src := filepath.Join(dir, "src")
 		Must(tree.Materialize(src), "materialize")
 		wantD, wantF, wantL := kindCounts(tree)
 
-		if rapid.IntRange(0, 4).Draw(rt, "tar") == 0 {
+		if !wide && rapid.IntRange(0, 4).Draw(rt, "tar") == 0 {
 			var buf bytes.Buffer
 			if _, err := archiver.CompressTar(&buf, src, Quiet()); err != nil {
 				Violation(rt, "C19/compress-tar", "CompressTar: %v", err)
@@ -134,6 +159,28 @@ func TestC19(t *testing.T) {
 		if rapid.IntRange(0, 2).Draw(rt, "docrash") != 0 {
 			crashAt = rapid.IntRange(0, 60+len(kinds)*8).Draw(rt, "crashstep")
 		}
+		// wide archives: reads of the first (larger) entry stall until a drawn number of later entries
+		// are done (a slow range of the download); the crash snapshot is taken by the stalled reader
+		// while every other task is parked
+		stallUntil, crashDone := 0, -1
+		var slowLo, slowHi int64
+		if wide {
+			conc = rapid.SampledFrom([]int{2, 3, 4, 8}).Draw(rt, "wideconcurrency")
+			stallUntil = rapid.IntRange(0, len(kinds)-1).Draw(rt, "stalluntil")
+			crashAt = -1
+			if rapid.IntRange(0, 3).Draw(rt, "widecrash") != 0 {
+				crashDone = rapid.IntRange(0, stallUntil).Draw(rt, "crashdone")
+			}
+			zr, err := stdzip.NewReader(bytes.NewReader(zb), int64(len(zb)))
+			Must(err, "stdlib zip reader")
+			for _, f := range zr.File {
+				if f.Name == "0slow.bin" {
+					o, err := f.DataOffset()
+					Must(err, "data offset")
+					slowLo, slowHi = o+1, o+int64(f.CompressedSize64)
+				}
+			}
+		}
 		tearMode := rapid.IntRange(0, 4).Draw(rt, "tear")
 		out := filepath.Join(dir, "out")
 		resume := filepath.Join(dir, "resume.txt")
@@ -171,12 +218,44 @@ func TestC19(t *testing.T) {
 		}
 		var res *archiver.ExtractResult
 		var xerr error
+		entriesDone, stalls := 0, 0
+		ra := &simReaderAt{b: zb, yield: s.Yield}
+		if wide {
+			ra.gate = func(off int64) {
+				if off < slowLo || off >= slowHi {
+					return
+				}
+				for {
+					s.mu.Lock()
+					done := entriesDone
+					s.mu.Unlock()
+					if crashDone >= 0 && cr == nil && done >= crashDone {
+						c := &crash{disk: MustSnapshot(out), step: s.Steps}
+						if b, err := os.ReadFile(resume); err == nil {
+							c.resume = b
+						}
+						s.mu.Lock()
+						for p := range inprog {
+							c.inprog = append(c.inprog, p)
+						}
+						s.mu.Unlock()
+						cr = c
+					}
+					if done >= stallUntil || stalls > 60000 {
+						return
+					}
+					stalls++
+					s.Yield("zip.ReadAt.stalled")
+				}
+			}
+		}
 		s.Run(t, func() {
-			res, xerr = archiver.ExtractZip(&simReaderAt{b: zb, yield: s.Yield}, int64(len(zb)), out, archiver.ExtractSettings{
+			res, xerr = archiver.ExtractZip(ra, int64(len(zb)), out, archiver.ExtractSettings{
 				Consumer: cons, Concurrency: conc, ResumeFrom: resume,
 				OnEntryDone: func(p string) {
 					s.mu.Lock()
 					delete(inprog, filepath.Join(out, filepath.FromSlash(p)))
+					entriesDone++
 					s.mu.Unlock()
 					s.Yield("entry-done")
 				},
@@ -207,6 +286,7 @@ func TestC19(t *testing.T) {
 		}
 
 		restarted := false
+		Ev.Fault("stalled_archive_reads", stalls)
 		if cr != nil && cr.step < s.Steps-s.DrainSteps {
 			// the process died at the snapshot: build the crash state and restart
 			restarted = true
